@@ -606,15 +606,17 @@ variant('b-connect-alive-reset-late', ['C17'], 'rsocket/rsocket_client.py',
 """, ('C17.a', '_is_server_alive'))
 variant('b-reconnect-connect-before-close', ['C17'], 'rsocket/rsocket_client.py',
         """                    await self._close(reconnect=True)
+
+                    if self._reconnect_task is not asyncio.current_task():
+                        return  # the client was closed while the old connection was being closed
+
                     self._next_transport = create_future()
                     await self.connect()""", """                    self._next_transport = create_future()
                     await self.connect()
                     await self._close(reconnect=True)""", ('C17.b', '_reconnect_listener'))
 variant('b-reconnect-stale-transport-future', ['C17'], 'rsocket/rsocket_client.py',
-        """                    await self._close(reconnect=True)
-                    self._next_transport = create_future()
-                    await self.connect()""", """                    await self._close(reconnect=True)
-                    await self.connect()""", ('C17.b', '_reconnect_listener'))
+        """                    self._next_transport = create_future()
+                    await self.connect()""", """                    await self.connect()""", ('C17.b', '_reconnect_listener'))
 variant('b-reconnect-close-kills-listener', ['C17'], 'rsocket/rsocket_client.py',
         "                    await self._close(reconnect=True)", "                    await self._close()",
         ('C17.b', ''))
@@ -2447,3 +2449,11 @@ variant('b-sender-cleanup-drains-the-transport', ['C11'], RB,
         "    async def _finally_sender(self):\n        pass",
         "    async def _finally_sender(self):\n        transport = self._current_transport()\n        if transport.done():\n            await transport.result().on_send_queue_empty()",
         ('C11.o', 'RSocketBase._finally_sender'))
+
+# C11.p (F24) wait graph
+variant('b-close-waits-for-the-reconnect-listener', ['C11'], 'rsocket/rsocket_client.py',
+        "            if reconnect_task is not None and reconnect_task is not asyncio.current_task():\n                reconnect_task.cancel()",
+        "            await cancel_if_task_exists(reconnect_task)", ('C11.p', 'wait cycle'))
+variant('b-receiver-waits-for-the-watchdog-cycle', ['C11'], 'rsocket/rsocket_client.py',
+        "            if keepalive_timeout_task is not None:\n                keepalive_timeout_task.cancel()",
+        "            await cancel_if_task_exists(keepalive_timeout_task)", ('C11.p', 'wait cycle'))
